@@ -91,7 +91,7 @@ def replay(ctx, case):
 
 
 MANIFEST = dict(
-    text="Proof: tracing the auxiliary register out of the purification sum_i s_i|psi_i>|i> with s_i conj(s_i)=p_i leaves sum_i p_i|psi_i><psi_i| for any ensemble size and dimension (C14_partial_trace_purification, any field); that matrix has trace one for normalised states and probabilities summing to one and is Hermitian for real probabilities (C14_reduced_state_trace_one, C14_reduced_state_hermitian) and its quadratic form is sum_i p_i |<psi_i|x>|^2 (C14_reduced_state_quadratic_form: positive semi-definite); accepted probability vectors lie in [0,1] and sum to 1 within 1e-9 relative (C14_probs_accept, predicate regenerated from the source). Tie: translator + decision comparison; the vector handed to the inner initializer is logged and compared with the theorem's purification matrix. In-circuit mode and the partial trace of the output are evaluated.",
+    text="Proof: tracing the auxiliary register out of the purification sum_i s_i|psi_i>|i> with s_i conj(s_i)=p_i leaves sum_i p_i|psi_i><psi_i| for any ensemble size and dimension (C14_partial_trace_purification, any field); that matrix has trace one for normalised states and probabilities summing to one and is Hermitian for real probabilities (C14_reduced_state_trace_one, C14_reduced_state_hermitian; C14_purification_normalised: the vector handed to the inner initializer has norm one) and its quadratic form is sum_i p_i |<psi_i|x>|^2 (C14_reduced_state_quadratic_form: positive semi-definite); accepted probability vectors lie in [0,1] and sum to 1 within 1e-9 relative (C14_probs_accept, predicate regenerated from the source). Tie: translator + decision comparison; the vector handed to the inner initializer is logged and compared with the theorem's purification matrix. In-circuit mode and the partial trace of the output are evaluated.",
     note='Modelled, not verified: the inner initializer (C01), Qiskit .control(ctrl_state) in the in-circuit mode.',
     technique='Coq/mathcomp proof + translator-regenerated validation predicate + logged-intermediate monitor + partial-trace evaluation',
     design_ref='DESIGN.md section 4, C14')
